@@ -187,6 +187,22 @@ func classifyText(p *Prog, a *Anchors, v ssa.Value, depth int) textClass {
 				return textClass{kind: "time", why: "time formatted with a template-supplied layout"}
 			}
 			return textClass{kind: "unknown", why: "time layout of kind " + lay.kind}
+		case "strings.Replace", "strings.ReplaceAll", "(*strings.Replacer).Replace", "html.EscapeString":
+			// text that went through a complete HTML escaping table is harmless whatever it was before
+			if pairs, _, _, errText := extractReplacementChain(p, x); errText == "" {
+				covered := map[string]bool{}
+				okTable := len(pairs) > 0 && pairs[0].Old == "&"
+				for _, pr := range pairs {
+					covered[pr.Old] = true
+					if (pr.Old == "&" || pr.Old == "<" || pr.Old == ">" || pr.Old == "\"" || pr.Old == "'") && (!strings.HasPrefix(pr.New, "&") || !strings.HasSuffix(pr.New, ";") || strings.ContainsAny(pr.New, "<>\"'")) {
+						okTable = false
+					}
+				}
+				if okTable && covered["&"] && covered["<"] && covered[">"] && covered["\""] && covered["'"] {
+					return textClass{kind: "rendered", why: "text passed through the complete escaping table (& first, then < > \" ')"}
+				}
+			}
+			return textClass{kind: "unknown", why: "result of " + name}
 		case "strings.TrimLeft", "strings.TrimRight", "strings.TrimSpace", "strings.Repeat":
 			return classifyText(p, a, cc.Args[0], depth+1)
 		case "(*Value).String":
